@@ -5,9 +5,9 @@ import vlib
 
 def main():
     rc = 0
-    vlib.prepare_harness()
+    hdir = vlib.prepare_harness()
     env = vlib.go_env()
-    p = subprocess.run(["go", "test", "-tags", "verif", "-count=1", "-vet=off", "-run", "^$", "./..."], cwd=vlib.HARNESS, env=env)
+    p = subprocess.run(["go", "test", "-tags", "verif", "-count=1", "-vet=off", "-run", "^$", "./..."], cwd=hdir, env=env)
     if p.returncode != 0:
         print("setup: harness build failed")
         rc = 1
